@@ -53,8 +53,10 @@ func (e EnumSchema[S, T]) ValidateCompatibility(typeOrData any) error {
 	for _, reflectKey := range validValuesMapField.MapKeys() {
 		var defaultValue T
 		defaultType := reflect.TypeOf(defaultValue)
-		if !reflectKey.CanConvert(defaultType) {
-			return fmt.Errorf("invalid enum value type %s", reflectKey.Type())
+		if reflectKey.Kind() != defaultType.Kind() || !reflectKey.CanConvert(defaultType) {
+			return &ConstraintError{
+				Message: fmt.Sprintf("invalid enum value type %s for enum %T", reflectKey.Type(), e),
+			}
 		}
 		keyToCompare := reflectKey.Convert(defaultType).Interface()
 		// Validate that the key in the data under test is present in the self enum schema.
